@@ -395,6 +395,8 @@ def run(chk):
             cf['ne'] = True
         if pid == 'C07' and not cf['W']:
             cf['W'] = rng.choice([1, 2, 3])
+        if pid in ('C07', 'C09', 'C02') and cf['ne'] and rng.random() < 0.4:
+            cf['neMax'] = rng.choice([1, 2, 3])       # bound on the depth of a non-emitting run (non_emitting_states_maxnb)
         ops = rand_ops(rng, inst.T, cf, plan['kinds'])
         if pid == 'C01' and rng.random() < 0.6:
             # planted walk with decoys (node-and-edge states in most of them; labels incl. a falsy one)
@@ -553,6 +555,9 @@ def geo_part(chk, pid, rng, n, plan):
         if pid == 'C09' and i % 3 == 0:
             # continue-with-distance after an early stop (edge states, a distance cut-off), then re-match
             cf.update(only_edges=True, max_dist=rng.choice([0.75, 1.0, 1.5]), max_dist_init=None)
+            if len(inst['path']) >= 3:          # an outlier somewhere after the first observation forces an early stop
+                k = rng.randint(1, len(inst['path']) - 1)
+                inst['path'][k] = [inst['path'][k][0] + 7.0, inst['path'][k][1] - 6.0]
             T = len(inst['path'])
             ops = [('match', T), ('cwd', T), ('rematch', T)] + ([('widen', cf['W'] + 2)] if cf['W'] else [])
         runs.append(record_geo(100000 + i, inst, cf, ops, rng.random() < 0.4, plan['aux']))
